@@ -6,7 +6,7 @@ VSizes == {1, 8, 9, 36, 48, 64, 252}
 NClass == {"1", "2", "3", "7", "8", "9", "31", "33", "40", "255", "257", "1023", "1025", "2049", "9999", "10001", "20001", "60000"}
 Declared == {"one", "tenth", "exact", "tenfold"}
 Orders == {"asc", "desc", "shuffle"}
-KeyClass == {"8", "0-and-1", "32", "64", "mixed", "65535"}
+KeyClass == {"8", "0-and-1", "32", "64", "mixed", "65535", "lengths"}
 Special == {"none", "one-bucket", "duplicate", "key-65536", "vsize-0", "vsize-253", "vsize-255", "vsize-256", "declared-0", "long-value"}
 VARIABLES fmt, vs, nc, decl, ord, kc, sp
 vars == <<fmt, vs, nc, decl, ord, kc, sp>>
@@ -19,6 +19,7 @@ Init == /\ fmt \in Formats /\ vs \in VSizes /\ nc \in NClass /\ decl \in Declare
         /\ (sp \in {"vsize-0", "vsize-253", "vsize-255", "vsize-256", "long-value", "declared-0"} => fmt = "sized")
         /\ (Big(nc) => ord = "shuffle" /\ kc \in {"8", "32"} /\ vs \in {8, 36} /\ decl \in {"exact", "tenth"})
         /\ (kc = "65535" => nc \in {"2", "3"})
+        /\ (kc = "lengths" => nc \in {"31", "40"} /\ ord = "shuffle" /\ decl = "exact")
         /\ (nc \in {"1023", "1025", "2049"} => kc = "32" /\ ord = "shuffle")
 Next == UNCHANGED vars
 Spec == Init /\ [][Next]_vars
